@@ -7,6 +7,11 @@ import writerlib as wl
 LEVEL = "proof"
 
 
+def regenerate(res):
+    import attrlib
+    attrlib.regenerate_pyfront(res)
+
+
 def run(res):
     nh = 150 if res.tier == "quick" else 3000
     res.rule = ("random histories of rf_write / rf_write_blocks / close over all writer modes with 25% rejected "
